@@ -645,8 +645,13 @@ pub fn run(c: &mut Ctx) {
         if idx % 8 == 0 {
             one_input(c, fam, idx, &g.octets, "valid");
         } else if idx % 8 == 1 {
-            let m = gm::typed_hostile_message(&mut rng);
-            one_input(c, fam, idx, &m, "typed-hostile");
+            if idx % 16 == 1 && !miri {
+                let m = gm::late_pointer_message(&mut rng);
+                one_input(c, fam, idx, &m, "late-pointers");
+            } else {
+                let m = gm::typed_hostile_message(&mut rng);
+                one_input(c, fam, idx, &m, "typed-hostile");
+            }
         } else {
             let (m, kind) = gm::mutate(&mut rng, &g);
             // sometimes stack a second mutation
@@ -757,7 +762,7 @@ pub fn run(c: &mut Ctx) {
         c.floor("records_accepted", 1000);
         c.floor("records_rejected", 100);
         c.floor("compressed_names", 1000);
-        for k in ["valid", "typed-hostile", "count", "pointer-retarget", "pointer-inject", "pointer-cycle", "label-type", "rdlen", "truncate", "rdata-inner", "long-name", "pointer-chain", "random", "ptr-exhaustive"] {
+        for k in ["valid", "typed-hostile", "late-pointers", "count", "pointer-retarget", "pointer-inject", "pointer-cycle", "label-type", "rdlen", "truncate", "rdata-inner", "long-name", "pointer-chain", "random", "ptr-exhaustive"] {
             c.floor(&format!("inputs_{}", k), 1);
         }
     }
